@@ -698,12 +698,27 @@ class Interp(seq_detached.DetachedMixin, S.SeqRun):
         call.  False when mo did not survive."""
         for o in self.live_sorted():
             self.handle_or_poison(o.mid)
-        k = r.below(6)
+        k = r.below(8)
         touched = None
+        members = [(sa, m) for sa in self.schema.by_name[mo.ent].sets() if not sa.reverse.is_set
+                   for m in sorted(self.view.partners(sa, mo.mid))]
         if k == 0:
             self.op_set(r.below(1000), r.below(1000), r.below(1000))
         elif k == 1:
             self.op_rel(r.below(1000), r.below(1000), r.below(1000))
+        elif k >= 6 and members:
+            # a member of one of mo's one-to-many collections (preferably the first stored one) is moved to
+            # another owner or deleted, from the member's side
+            sa, m = members[0] if r.chance(0.6) else members[r.below(len(members))]
+            touched = sa
+            others = [o.mid for o in self.live_sorted(mo.ent) if o.mid != mo.mid]
+            if k == 6 and others:
+                t = others[r.below(len(others))]
+                self.modify('rel %s#%d.%s=#%d' % (sa.rel, m, sa.reverse.name, t),
+                            lambda: setattr(self.handle(m), sa.reverse.name, self.handle(t)),
+                            lambda v: v.set_to_one(m, sa.reverse, t), mids=[m, t])
+            else:
+                self.modify('del %s#%d' % (sa.rel, m), lambda: self.handle(m).delete(), lambda v: v.delete(m), mids=[m])
         else:
             owners = [o for o in self.live_sorted() if self.schema.by_name[o.ent].sets()]
             ids = [o.mid for o in owners]
@@ -1039,10 +1054,39 @@ class Interp(seq_detached.DetachedMixin, S.SeqRun):
             self.viol('C09', 'internal-error-at-flush', 'exc=%s' % type(e).__name__,
                       '%s failed with %s: %s\n%s' % (where, type(e).__name__, str(e)[:200], traceback.format_exc()[-800:]))
             return
-        if self.session_clean and not self.fault_fired_in_session and not self.has_new_cycle():
+        if self.session_clean and not self.fault_fired_in_session and not self.has_new_cycle() \
+                and not self.has_stored_delete_cycle():
             self.viol('C16', 'orderable-flush-failed', 'exc=%s' % type(e).__name__,
                       '%s failed with %s: %s although the pending changes are consistent and can be ordered'
                       % (where, type(e).__name__, str(e)[:240]))
+
+    def has_stored_delete_cycle(self):
+        """reference cycle among rows that are to be deleted, through the foreign keys they hold in the database (as
+        of the last flush): plain DELETEs cannot be ordered then"""
+        base = getattr(self, 'flushed', None) or self.committed
+        dead = set(m for m, o in self.view.objs.items() if o.deleted and m in base.objs and not base.objs[m].deleted
+                   and base.objs[m].stored)
+        graph = {}
+        for mid in dead:
+            e = self.schema.by_name[base.objs[mid].ent]
+            outs = set()
+            for ra in e.to_ones():
+                if not getattr(self.E[e.name], ra.name).columns:
+                    continue
+                t = base.get_one(ra, mid)
+                if t is not None and t in dead:
+                    outs.add(t)
+            graph[mid] = outs
+        color = {}
+
+        def dfs(n):
+            color[n] = 1
+            for m in graph[n]:
+                if color.get(m) == 1 or (color.get(m) is None and dfs(m)):
+                    return True
+            color[n] = 2
+            return False
+        return any(color.get(n) is None and dfs(n) for n in sorted(graph))
 
     def has_new_cycle(self):
         """reference cycle among not-yet-stored objects through foreign-key columns"""
@@ -1105,6 +1149,7 @@ class Interp(seq_detached.DetachedMixin, S.SeqRun):
         self.refresh_pks()
         for o in self.view.live():
             o.stored = True
+        self.flushed = self.view.clone()
         self.released_keys = set()
         self.taken_keys = set()
         self.session_clean = not self.fault_fired_in_session
@@ -1142,6 +1187,7 @@ class Interp(seq_detached.DetachedMixin, S.SeqRun):
         if self.handles:
             self.last_handles, self.last_view = dict(self.handles), self.view
         self.view = self.committed.clone()
+        self.flushed = None
         self.handles = {}
         self.h2m = {}
         self.dup_pending = None
@@ -1159,6 +1205,7 @@ class Interp(seq_detached.DetachedMixin, S.SeqRun):
         self.hook_edits = []
         self.hook_created = []
         self.view = self.committed.clone()
+        self.flushed = None
         self.handles = {}
         self.h2m = {}
         self.dup_pending = None
